@@ -804,7 +804,9 @@ def cmd_diff(mode):
     for i, r in enumerate(recs):
         rob, pin = preds[2 * i], preds[2 * i + 1]
         d_r, d_p = first_diff(r["obs"], rob), first_diff(r["obs"], pin)
-        differ = norm(rob) != norm(pin)
+        # non-trivial: the two variants of the model predict different OUTCOMES OF CALLS (not merely
+        # another file format), i.e. the history exercises a behaviour the fix changed
+        differ = norm([o[0] for o in rob]) != norm([o[0] for o in pin])
         n_differ += differ
         n_robust += d_r is None
         n_pinned += d_p is None
